@@ -20,8 +20,7 @@ def cases(tier):
         import random
         rnd = random.Random(SEED[0] * 7919 + len(L))
         pairs = [(a, b) for a in range(ns) for b in range(ns)]
-        if tier == 'quick': pairs = rnd.sample(pairs, min(len(pairs), 10 if ns <= 7 else 6))
-        elif ns > 7: pairs = rnd.sample(pairs, 40)
+        if ns > 10: pairs = rnd.sample(pairs, 40)        # all ordered pairs up to 10 states, a seeded sample beyond
         for a, b in pairs:               # batch of two queued requests: kinds symbolic, destinations case-split
             L.append(fsm_case('C02', fx, 'batch2_d%d_d%d' % (a, b), base + ['ENTRY=3', 'NREQ=2', 'EXT_KINDS=0x9e', 'DEST0=%d' % a, 'DEST1=%d' % b], timeout=900 * T, witness=False))
         if tier == 'thorough' and fx['T'].nc >= 3:
